@@ -196,7 +196,7 @@ func runC03(c *core.Ctx) {
 		for ms := 0; ms < 81; ms++ {
 			for ps := 0; ps < 81; ps++ {
 				// quick tier: a seed-determined half of the link states per list
-				if c.Quick() && core.HashParts(c.Seed, li, ms, ps)%2 == 0 {
+				if (c.Quick() || li >= n1) && core.HashParts(c.Seed, li, ms, ps)%2 == 0 {
 					continue
 				}
 				nStates++
@@ -241,7 +241,7 @@ func runC03(c *core.Ctx) {
 	nrand := c.Pick(20000, 400000)
 	upaths := []string{"a", "b", "d/a", "d/b", "d/e/a", "f.c", "e/a", "dx/a"}
 	hashes := []ref.HashObj{h1, h2, h3, h4}
-	pats := []string{"*", "a", "b", "d/*", "d/?", "?", "*.c", "d/e/*", "[ab]", "d/[^a]", "*/a", "e/*", "f.c", "d*", "\\a"}
+	pats := []string{"*", "a", "b", "d/*", "d/?", "?", "*.c", "d/e/*", "[ab]", "d/[^a]", "*/a", "e/*", "f.c", "d*", "\\a", "f\\.c*", "d\\/*", "f\\.*", "\\d*", "[^a][ab]", "d/[^b][a]*"}
 	prefixes := []string{"d", "d/e", "e", "dx", "d/", "f"}
 	ra, rr := int64(0), int64(0)
 	for i := 0; i < nrand; i++ {
@@ -465,6 +465,10 @@ func c03Grammar(c *core.Ctx) {
 			}
 		}
 		variants = append(variants, append(append([]string{}, f...), "x"), append(append([]string{}, f...), "FROM", "s"))
+		// every proper prefix of the form (a rule that lost its tail)
+		for k := 0; k < len(f); k++ {
+			variants = append(variants, append([]string{}, f[:k]...))
+		}
 		for vi, v := range variants {
 			idx++
 			if !c.Mine(idx) {
@@ -486,7 +490,7 @@ func init() {
 	core.Register(&core.Property{
 		ID:    "C03",
 		Level: "exploration",
-		Rule: "exhaustive: universe paths {a, d/a, d/b, dx/a} x hashes {h1,h2}: all 6561 (materials,products) link states x rule lists over a 50-rule vocabulary (7 rule types, patterns * a d/* ? d/a, MATCH in all 4 forms with prefixes d, d/, e, e/d, both destination types, missing destination) of length<=1 and length 2 completely (thorough); quick: all lists of length<=1 and a seeded 1% of the 2-rule lists, each on a seed-determined half of the link states, on the material and on the product side, for Step and Inspection items, each list also with a terminal probe DISALLOW <path> per universe path (queue observability); random: 8-path universe, 4 hash objects incl. other algorithm sets, lists of 1-11 rules with mixed-case keywords and occasional malformed rules; grammar: all token lists of length<=4 over 8 tokens + every valid form with <=2 substitutions / 1 insertion / 1 deletion in random casing. " +
+		Rule: "exhaustive: universe paths {a, d/a, d/b, dx/a} x hashes {h1,h2}: all 6561 (materials,products) link states x rule lists over a 50-rule vocabulary (7 rule types, patterns * a d/* ? d/a, MATCH in all 4 forms with prefixes d, d/, e, e/d, both destination types, missing destination) of length<=1 completely and all 2-rule lists each on a seed-determined half of the link states (thorough); quick: all lists of length<=1 and a seeded 1% of the 2-rule lists, each on a seed-determined half of the link states, on the material and on the product side, for Step and Inspection items, each list also with a terminal probe DISALLOW <path> per universe path (queue observability); random: 8-path universe, 4 hash objects incl. other algorithm sets, lists of 1-11 rules with mixed-case keywords and occasional malformed rules; grammar: all token lists of length<=4 over 8 tokens + every valid form with <=2 substitutions / 1 insertion / 1 deletion in random casing. " +
 			"Oracle = reference queue interpreter + reference grammar written from the spec text, using the reference glob (not the library's). non-trivial/distinct = enumerated cases are distinct by construction, random ones by hash of the whole case",
 		Assumptions: []string{
 			"only clean relative slash paths, clean patterns and prefixes (path.Clean(x)==x, prefixes also with one trailing slash) are generated: behaviour on unclean paths is not stated by the property and not judged",
